@@ -185,7 +185,16 @@ class DictCursor:
 
     def _load(self, res):
         if res.cols is not None:
-            cols = res.cols
+            # pymysql DictCursor: a column whose name was already used is keyed "<table>.<name>"
+            cols = []
+            seen = set()
+            for c in res.cols:
+                k = str(c)
+                if k in seen:
+                    t = getattr(c, 'table', None)
+                    k = f'{t}.{k}' if t else k
+                seen.add(k)
+                cols.append(k)
             self._rows = [dict(zip(cols, r)) for r in res.rows]
             self.rowcount = len(self._rows)
             self.description = tuple((c,) for c in cols)
